@@ -15,7 +15,8 @@ RULE = ("fault injection at gpyreg.GP.fit entry (LinAlgError at chosen invocatio
         "message) and C04/C05 (truthful result) all hold. distinct_nontrivial = distinct (mode, plan shape, fit kind initial|local) "
         "cells in which a fault was actually DELIVERED (measured), weighted by distinct k")
 RUN_KW = {"quick": dict(timeout_case=900, wall_cap=1200), "thorough": dict(timeout_case=3200, wall_cap=3400)}
-ASSUMPTIONS = ["faults are injected at GP.fit and at the posterior recomputation inside local_gp_fitting (both listed mechanisms); GP.update calls "
+ASSUMPTIONS = ["late faults (inside a fit's final posterior factorisation) are raised at gpyreg's private core computation; if that seam is absent the plans are reported as a structural mismatch (inconclusive)",
+               "faults are injected at GP.fit and at the posterior recomputation inside local_gp_fitting (both listed mechanisms); GP.update calls "
                "elsewhere (incremental add of a point) have no handler and are outside the statement"]
 
 
@@ -72,13 +73,24 @@ def run_case(case):
     k = int(rs.randint(0, max(1, U)))
     uplans.append(("update-run3", [k, k + 1, k + 2]))
     uplans = uplans[: max(2, case["nplans"] // 2)]
+    # the same plan shapes delivered LATE (inside the fit's final posterior factorisation instead of at its entry)
+    # (only LOCAL refits: they work on a copy of the GP.  The initial training fits the live object; a late failure there is
+    # not something gpyreg's fit can produce today - it retries the final factorisation itself and never raises LinAlgError
+    # from it - and is recorded as an observation in DESIGN section 13, not injected)
+    n_init = sum(1 for f in ref.gp_fits if f["kind"] == "initial")
+    lplans = [("late-" + sh, [k for k in ix if k >= n_init]) for sh, ix in plans if sh in ("single", "run2", "run3", "scattered")]
+    lplans = [(sh, ix) for sh, ix in lplans if ix][: max(2, case["nplans"] // 2)]
     viol = {}
     cells = {}
     delivered_runs = 0
     faults_delivered = 0
     mode = spec["noise"]["mode"]
-    for shape, idx in plans + uplans:
-        if shape.startswith("update"):
+    for shape, idx in plans + uplans + lplans:
+        if shape.startswith("late-"):
+            m = RunMonitor(spec, oracles={"C01", "C03", "C04", "C05"}, gp_fault_late=idx)
+            rec = m.run()
+            dl = [f for f in m.gp_fits if f.get("late")]
+        elif shape.startswith("update"):
             m = RunMonitor(spec, oracles={"C01", "C03", "C04", "C05"}, gp_update_fault=idx)
             rec = m.run()
             dl = [{"i": i, "kind": "posterior-update", "faulted": True} for i in idx][: m.gp_updates_faulted]
